@@ -66,6 +66,7 @@ package rbc
 //@     ghost r.gNow = now
 //@   on-call r.ForwardToBackend(fm, ff):
 //@     assert [p2p-unchanged] fm == m && ff == from
+//@     assert [not-an-ack]    len(digest) == 0
 //@   on-call r.BroadcastAck(d, s, rd):
 //@     ghost r.tAckSent[msgReception{d, s, rd}] = ite(r.tAckSent[msgReception{d, s, rd}] == 0, now, r.tAckSent[msgReception{d, s, rd}])
 //@
